@@ -16,10 +16,21 @@ use std::thread::JoinHandle;
 use std::time::{Duration, Instant};
 
 pub static TRACE: std::sync::atomic::AtomicBool = std::sync::atomic::AtomicBool::new(false);
+/// last few script steps (kept under Miri / --trace so that a hung case can say where it hangs)
+pub static LAST: std::sync::Mutex<Vec<String>> = std::sync::Mutex::new(Vec::new());
 macro_rules! tr {
     ($($a:tt)*) => {
-        if TRACE.load(std::sync::atomic::Ordering::Relaxed) {
-            eprintln!($($a)*);
+        if cfg!(miri) || TRACE.load(std::sync::atomic::Ordering::Relaxed) {
+            let s = format!($($a)*);
+            if TRACE.load(std::sync::atomic::Ordering::Relaxed) {
+                eprintln!("{}", s);
+            }
+            if let Ok(mut l) = LAST.lock() {
+                if l.len() > 40 {
+                    l.remove(0);
+                }
+                l.push(s);
+            }
         }
     };
 }
@@ -197,6 +208,7 @@ impl<T: Payload> Scn<T> {
     }
 
     pub fn wait_hits(&mut self, point: u32, at_least: u64) -> bool {
+        tr!("wait_hits {} >= {}", kanal::verif::POINT_NAMES[point as usize], at_least);
         let t0 = Instant::now();
         let mut spins = 0;
         while self.hits()[point as usize] < at_least {
@@ -209,6 +221,7 @@ impl<T: Payload> Scn<T> {
         true
     }
     pub fn wait_arrived(&mut self, w: usize, point: u32) -> bool {
+        tr!("wait_arrived w={} {}", w, kanal::verif::POINT_NAMES[point as usize]);
         let r = self.role_of(w);
         if !fp::wait_arrived(r, point, self.grace) {
             // not a verdict: the path simply did not go through this point
@@ -221,6 +234,7 @@ impl<T: Payload> Scn<T> {
         fp::arm(self.role_of(w), point)
     }
     pub fn release(&self, w: usize, point: u32) {
+        tr!("release w={} {}", w, kanal::verif::POINT_NAMES[point as usize]);
         fp::release(self.role_of(w), point)
     }
     pub fn worker_finished(&self, w: usize) -> bool {
@@ -270,6 +284,11 @@ impl<T: Payload> Scn<T> {
 
     /// Joins everything, drops every handle (workers' first, then main's), and
     /// judges the complete history.
+    pub fn mexec(&mut self, op: Op) {
+        tr!("main exec {:?}", op);
+        self.main.exec(op);
+        tr!("main done {:?}", self.main.log.last().map(|e| e.res.clone()));
+    }
     pub fn finish(mut self, lin_budget: u64, obs: &mut Obs, samples: &mut Vec<Vec<String>>, lin_states: &mut u64) -> Outcome {
         fp::reset_gates();
         let n = self.workers.len();
